@@ -31,6 +31,10 @@ def main():
     assert rc == 0, out
     try:
         rc, out = sh(f"git apply {os.path.join(d, 'patch.diff')}", cwd=wt)
+        if rc != 0:
+            # the surrounding lines changed since the seed was made (later fix: commits in /repo): apply with fuzz
+            rc, out = sh(f"patch -p1 --fuzz=3 < {os.path.join(d, 'patch.diff')}", cwd=wt)
+            meta["patch_applied_with_fuzz"] = True
         assert rc == 0, out
         for prop in props:
             t0 = time.time()
@@ -49,6 +53,7 @@ def main():
                        caught_with_failing_input=any(not v["no_failing_input"] for v in viol), repo_head=sh("git -C /repo rev-parse --short HEAD")[1].strip(),
                        verif_head=sh("git rev-parse --short HEAD", cwd=ROOT)[1].strip())
             if prop == meta["property"]:
+                meta["last_recheck"] = dict(repo_head=rec["repo_head"], verif_head=rec["verif_head"], caught=rec["caught"], with_input=rec["caught_with_failing_input"])
                 if "first_verdict" not in meta:
                     meta["first_verdict"] = {k: meta.get(k) for k in ("check_rc", "check_lines", "check_violations", "caught", "caught_with_failing_input")}
                 meta.update({k: rec[k] for k in ("check_rc", "check_lines", "check_violations", "caught", "caught_with_failing_input")})
